@@ -88,6 +88,9 @@ def gen_runs(ctx, sync_kind):
                     conf = ["conf %s %d %d" % (k, n, r)]
                     if k == "synclock-weak":
                         conf.append("spurious %d 0" % rng.choice([0, 100, 300]))
+                    elif k == "synclock" and i % 2:
+                        # interrupted futex waits (EINTR): the lock loop must retry, never proceed
+                        conf.append("spurious 0 0 %d" % rng.choice([200, 500, 800]))
                     pol = rng.random()
                     s = rng.randrange(1, 1 << 30)
                     sched = "random %d" % s if pol < 0.6 else "pct %d %d" % (s, rng.choice([1, 2, 3]))
